@@ -6,9 +6,11 @@
    of its last fsync ([i_dur]), its current content ([i_vol]) and a dirty flag.  The
    directory has a durable table and the list of entry operations not yet made durable by
    an fsync of the directory.  Operations are system calls that SUCCEEDED (the observer
-   drops failed calls, they have no effect).  Every modelled write appends: the observer
-   reports lseek/pwrite and opens of a non-empty file without O_TRUNC as [OOther], which
-   poisons the run ([run] = None).
+   drops failed calls, they have no effect).  [OWrite] appends; the observer tracks the offset
+   of every descriptor and reports a write whose offset is not the end of the file (pwrite, or
+   a write through a descriptor opened without O_TRUNC on a non-empty file) as [OWriteAt],
+   which overwrites in place; lseek and anything else is [OOther] and poisons the run
+   ([run] = None).
 
    Two crash models:
    * [Process]: the process dies, the kernel lives: every completed system call (and the
@@ -70,7 +72,8 @@ Definition vdir (st : fs) : list (name * ino) := apply_dirops (ddir st) (pend st
 Inductive op :=
 | OOpen (fd : fdn) (n : name) (creat excl trunc : bool)
 | OOpenDir (fd : fdn)
-| OWrite (fd : fdn) (data : bytes)
+| OWrite (fd : fdn) (data : bytes)                 (* write at the end of the file *)
+| OWriteAt (fd : fdn) (off : nat) (data : bytes)   (* write at an offset inside the file: overwrites in place *)
 | OFsync (fd : fdn)
 | OClose (fd : fdn)
 | ORename (src dst : name)
@@ -100,10 +103,7 @@ Definition step (st : fs) (o : op) : option fs :=
                   if trunc then
                     Some {| inodes := aset i {| i_dur := i_dur nd; i_vol := []; i_dirty := true |} (inodes st);
                             ddir := ddir st; pend := pend st; fds := aset fd (FFile i) (fds st); next := next st |}
-                  else match i_vol nd with
-                       | [] => Some (with_fds st (aset fd (FFile i) (fds st)))
-                       | _ => None          (* offset <> end of file: not modelled *)
-                       end
+                  else Some (with_fds st (aset fd (FFile i) (fds st)))
               end
           | None =>
               if creat then
@@ -123,6 +123,20 @@ Definition step (st : fs) (o : op) : option fs :=
       | Some (FFile i) =>
           match aget i (inodes st) with
           | Some nd => Some (with_inodes st (aset i {| i_dur := i_dur nd; i_vol := i_vol nd ++ d; i_dirty := true |} (inodes st)))
+          | None => None
+          end
+      | _ => None
+      end
+  | OWriteAt fd off d =>
+      match aget fd (fds st) with
+      | Some (FFile i) =>
+          match aget i (inodes st) with
+          | Some nd =>
+              if Nat.leb off (length (i_vol nd))
+              then Some (with_inodes st (aset i {| i_dur := i_dur nd;
+                                                   i_vol := firstn off (i_vol nd) ++ d ++ skipn (off + length d) (i_vol nd);
+                                                   i_dirty := match d with [] => i_dirty nd | _ => true end |} (inodes st)))
+              else None                       (* hole: not modelled *)
           | None => None
           end
       | _ => None
@@ -200,6 +214,7 @@ Definition crash := crash_gen prefixes.
 Definition partials_gen (lens : bytes -> list nat) (o : op) : list (list op) :=
   match o with
   | OWrite fd d => map (fun p => [OWrite fd (firstn p d)]) (lens d)
+  | OWriteAt fd off d => map (fun p => [OWriteAt fd off (firstn p d)]) (lens d)
   | _ => []
   end.
 Fixpoint crash_prefixes_gen (lens : bytes -> list nat) (os : list op) : list (list op) :=
